@@ -258,8 +258,8 @@ func (c *c11Chain) genLcaFamily(r *vg.Rand) c11Family {
 	}
 	bid := types.BlockID{Hash: hdr.Hash(), PartSetHeader: types.PartSetHeader{Total: 1, Hash: r.Bytes(32)}}
 	commit := c.mkCommitFlags(k, round, bid, cvals, func(i int) types.BlockIDFlag { return fl[i] }, c.times[common])
-	if os.Getenv("VERIF_C11_FORGED") == "1" && fam.verifiable {
-		// PROBE (off by default, see work/c11_new_findings.json): a slot behind the point where the
+	if os.Getenv("VERIF_C11_FORGED") != "0" && fam.verifiable && r.Chance(35) {
+		// forged slots (F57-2 class; VERIF_C11_FORGED=0 switches the family off): a slot behind the point where the
 		// commit checks stop verifying signatures is turned into a "signature for the block" of a
 		// member of the common set, with a signature that does not verify
 		if i := c11ForgeableSlot(cvals, fl, cv, fam.shape == "lunatic"); i >= 0 {
@@ -518,18 +518,27 @@ func TestVerifC11Lca(t *testing.T) {
 				}
 				g := 0
 				gOK := d.tbl[0].ev.ValidateBasic() == nil
-				wrong := func() {
-					for _, i := range usable {
+				// AddEvidence and CheckEvidence (in-block) in either order: each gets to see the
+				// evidence first in half of the cases
+				both := func(i int) {
+					if hr.Bool() {
 						step(d.doCheck([]int{i}))
 						step(d.doAdd(i))
+					} else {
+						step(d.doAdd(i))
+						step(d.doCheck([]int{i}))
+					}
+				}
+				wrong := func() {
+					for _, i := range usable {
+						both(i)
 					}
 				}
 				genuine := func() {
 					if !gOK {
 						return
 					}
-					step(d.doCheck([]int{g}))
-					step(d.doAdd(g))
+					both(g)
 					step(d.doPending(-1))
 				}
 				if order == 0 {
